@@ -627,7 +627,7 @@ func prefixEq(a, b []byte, n int) bool {
 // specBypass is the documented rule, written directly: localhost / loopback, or some NO_PROXY
 // value matches ("*", IP[:port], CIDR, domain[:port] with leading "." / "*." = subdomains only).
 func specBypass(np string, host, port string, ip net.IP) (bool, string) {
-	if host == "localhost" {
+	if strings.ToLower(strings.TrimSpace(host)) == "localhost" { // host names are case-insensitive
 		return true, "localhost"
 	}
 	var a netip.Addr
